@@ -23,7 +23,9 @@ def items(cls, key, extra=None):
         ok2.update(extra)
     return {
         "none": None, "one": dict(ok1), "list": [dict(ok1), dict(ok2)], "empty-list": [],
-        "missing-key": {"other": "a.x", **(extra or {})}, "empty-item": {}, "non-dict": "a.x",
+        # an item that has other attributes (rel, type, media, ...) but not the required key
+        "other-attrs-only": {"rel": "stylesheet", "type": "t", "media": "print", **(extra or {})},
+        "missing-key": {"other": "a.x", **(extra or {})}, "empty-item": {}, "non-dict": "css/rel-src-href-name-content.x",
         "list-with-missing": [dict(ok1), {"zzz": "y", **(extra or {})}], "list-with-non-dict": [dict(ok1), "b.x"],
         "missing-content": {key: "a.x"},
         "mapping-item": [dict(ok1), types.MappingProxyType(dict(ok2))],
@@ -136,7 +138,14 @@ class C10(Prop):
         if g["kind"] == "resolve":
             t = build(g["tree"], H, {} if g.get("alias") else None)
             got = t.get_dependencies()
-            return {"k": "resolve", "tree": g["tree"], "got": proj(got),
+            # the same forest as the content of a document (the only tag among the top-level items - if there is exactly
+            # one - being the caller's own <body>): what is reported does not depend on where the objects sit
+            top = [build(c, H, {} if g.get("alias") else None) for c in g["tree"]["c"]]
+            tag_idx = [j for j, c in enumerate(g["tree"]["c"]) if c["k"] == "t"]
+            if len(tag_idx) == 1:
+                top[tag_idx[0]] = H.tags.body(*top[tag_idx[0]].children)
+            got_doc = H.HTMLDocument(*top).render()["dependencies"] if top else []
+            return {"k": "resolve", "tree": g["tree"], "got": proj(got), "gotDoc": proj(got_doc),
                     "gotNoDedup": proj(t.get_dependencies(dedup=False)),
                     "gotTagifiedNoDedup": proj(t.tagify().get_dependencies(dedup=False)),
                     "gotRender": proj(t.render()["dependencies"]),
